@@ -103,7 +103,9 @@ def struct(tree, ci=False):
         r = repr(tree)
     r = renumber_blocks(r)
     if ci:
-        r = re.sub(r"Name\('([^']*)'\)", lambda m: "Name('%s')" % m.group(1).lower(), r)
+        # structure up to letter case (names, kind parameters, exponent letters ...); the text of character
+        # literals is compared separately and exactly through the printed text (obs.tci)
+        r = r.lower()
     return r
 
 
